@@ -176,6 +176,18 @@ func verifyFuncOnce(w *World, key string, opts VerifyOpts) (res *FuncResult) {
 		c.Notes = append(c.Notes, key+": no return is reachable")
 		return
 	}
+	// a call-site clause that matched no call, go statement, select send or close in the current code checks nothing:
+	// the effect it constrains is gone (or was renamed beyond recognition). Reported, not silently dropped.
+	for _, cs := range ct.Calls {
+		if x.csMatched[cs.Clause] {
+			continue
+		}
+		nm := cs.Clause.Name
+		if nm == "" {
+			nm = mangle(cs.Callee)
+		}
+		c.oblige(fmt.Sprintf("%s#call:%s", key, nm), "call", key, "callsite "+cs.Callee+" "+cs.Clause.Text+"   [matches no call site in the current code]", fr.pos(fn.Pos()), "true", "false", nil)
+	}
 	// some return must be reachable under everything assumed on the way (contracts of callees, invariants, axioms): a
 	// contradiction among them would make every obligation below hold vacuously
 	{
